@@ -99,6 +99,15 @@ var slowTail = func() []byte {
 // flagWired: this process composes its (single) watcher through fingerproxy.VerifNewApp (child mode).
 var flagWired bool
 
+// bytes: the file content for c in this history's PEM layout (complete, unpadded files only)
+func (hr *histRun) bytes(c content) []byte {
+	b := hr.pool.bytes(c)
+	if (c.Kind == "cert" && !c.Pad) || c.Kind == "key" {
+		return pemStyled(b, hr.h.PEMStyle)
+	}
+	return b
+}
+
 type histRun struct {
 	h    *history
 	pool *pairPool
@@ -161,12 +170,12 @@ func (hr *histRun) k8sWriteDir(gen int, c, k content) error {
 		return err
 	}
 	if c.Kind != "missing" {
-		if err := os.WriteFile(filepath.Join(d, "tls.crt"), hr.pool.bytes(c), 0o600); err != nil {
+		if err := os.WriteFile(filepath.Join(d, "tls.crt"), hr.bytes(c), 0o600); err != nil {
 			return err
 		}
 	}
 	if k.Kind != "missing" {
-		if err := os.WriteFile(filepath.Join(d, "tls.key"), hr.pool.bytes(k), 0o600); err != nil {
+		if err := os.WriteFile(filepath.Join(d, "tls.key"), hr.bytes(k), 0o600); err != nil {
 			return err
 		}
 	}
@@ -211,14 +220,14 @@ func (hr *histRun) setup() error {
 		}
 		return os.Symlink("..data/tls.key", hr.keyPath)
 	}
-	cb := hr.pool.bytes(c)
+	cb := hr.bytes(c)
 	if hr.h.SlowInitial {
 		cb = append(append([]byte{}, cb...), slowTail...)
 	}
 	if err := os.WriteFile(hr.certPath, cb, 0o600); err != nil {
 		return err
 	}
-	return os.WriteFile(hr.keyPath, hr.pool.bytes(k), 0o600)
+	return os.WriteFile(hr.keyPath, hr.bytes(k), 0o600)
 }
 
 // waitHandshakes lets k more handshakes complete (logical pacing).
@@ -245,11 +254,11 @@ func (hr *histRun) apply(i int, st step) error {
 	var err error
 	switch st.Op {
 	case "write":
-		err = writeInPlace(hr.path(st.Path), hr.pool.bytes(st.C))
+		err = writeInPlace(hr.path(st.Path), hr.bytes(st.C))
 	case "truncate":
 		err = os.Truncate(hr.path(st.Path), 0)
 	case "partial", "partial-abandon":
-		data := hr.pool.bytes(st.C)
+		data := hr.bytes(st.C)
 		cut := min(st.Cut, len(data)-10)
 		if cut < 0 {
 			cut = 0
@@ -269,7 +278,7 @@ func (hr *histRun) apply(i int, st step) error {
 		}
 	case "rename-over":
 		tmp := filepath.Join(hr.dir, fmt.Sprintf(".tmp-%d-%s", i, st.Path))
-		if err = os.WriteFile(tmp, hr.pool.bytes(st.C), 0o600); err == nil {
+		if err = os.WriteFile(tmp, hr.bytes(st.C), 0o600); err == nil {
 			if err = hr.waitHandshakes(st.PauseMid); err == nil {
 				rec.VisibleFrom = hr.stamp()
 				err = os.Rename(tmp, hr.path(st.Path))
